@@ -58,11 +58,12 @@ pub fn ok(v: Value, pos: usize) -> Value { json!({"p":"ok","v":v,"pos":pos}) }
 pub fn err(cls: &str, pos: usize) -> Value { json!({"p":"err","cls":cls,"pos":pos}) }
 
 pub fn err_class(e: &minicbor::decode::Error) -> &'static str {
+    #[cfg(feature = "alloc")]
+    if e.is_custom() { return "custom" }
     if e.is_end_of_input() { "eoi" }
     else if e.is_type_mismatch() { "type" }
     else if e.is_tag_mismatch() { "tag" }
     else if e.is_message() { "msg" }
-    else if e.is_custom() { "custom" }
     else if e.is_unknown_variant() { "unkvar" }
     else if e.is_missing_value() { "missing" }
     else { "other" }
